@@ -94,6 +94,16 @@ class Pool:
         return cl[0] if rng is None else rng.choice(cl)
 
 
+def letter_variant(s, rng):
+    idx = [i for i, ch in enumerate(s) if ch.isalpha() and ch.isascii()]
+    if idx:
+        i = rng.choice(idx)
+        ch = s[i]
+        nxt = {"z": "y", "Z": "Y"}.get(ch, chr(ord(ch) + 1))
+        return s[:i] + nxt + s[i + 1:]
+    return s + rng.choice(["a", "b", "rc1", "beta1"])
+
+
 def build_pool(name, rng, size=40, respell=0.3, need_hash=True):
     p = Pool(name, need_hash)
     tries = 0
@@ -104,6 +114,14 @@ def build_pool(name, rng, size=40, respell=0.3, need_hash=True):
         except RuntimeError:
             break
         p.insert(s, v)
+        if rng.random() < 0.3:
+            # a neighbour that differs in letters only (schemes may hash by the digits alone: unequal versions
+            # with equal hashes are legal and must not be confused by anything that remembers a hash)
+            s3 = letter_variant(s, rng)
+            try:
+                p.insert(s3, S.make(name, s3))
+            except Exception:  # noqa: BLE001
+                pass
         if rng.random() < respell:
             try:
                 s2 = S.RESPELL[name](s, rng)
